@@ -1,0 +1,8 @@
+//go:build !verif
+
+package slogutil
+
+import "sync"
+
+// simPoint is a no-op in builds without the verif tag.
+func simPoint(_ string, _ *sync.Mutex) {}
